@@ -138,23 +138,11 @@ UriBool URI_FUNC(RemoveDotSegmentsEx)(URI_TYPE(Uri) * uri,
 				URI_TYPE(PathSegment) * const prev = walker->reserved;
 				URI_TYPE(PathSegment) * const nextBackup = walker->next;
 
-				/*
-				 * Is this dot segment essential,
-				 * i.e. is there a chance of changing semantics by dropping this dot segment?
-				 *
-				 * For example, changing "./http://foo" into "http://foo" would change semantics
-				 * and hence the dot segment is essential to that case and cannot be removed.
-				 */
+				/* NOTE: Whether the path needs a "." segment in front to keep
+				 *       its meaning (e.g. "./http://foo" must not become
+				 *       "http://foo") can only be told from what is left once
+				 *       all dot segments are gone, see FixPathAfterDotRemoval. */
 				removeSegment = URI_TRUE;
-				if (relative && (walker == uri->pathHead) && (walker->next != NULL)) {
-					const URI_CHAR * ch = walker->next->text.first;
-					for (; ch < walker->next->text.afterLast; ch++) {
-						if (*ch == _UT(':')) {
-							removeSegment = URI_FALSE;
-							break;
-						}
-					}
-				}
 
 				if (removeSegment) {
 					/* .. then let's go remove that segment. */
@@ -612,6 +600,93 @@ UriBool URI_FUNC(FixAmbiguity)(URI_TYPE(Uri) * uri,
 	segment->text.first = URI_FUNC(ConstPwd);
 	segment->text.afterLast = URI_FUNC(ConstPwd) + 1;
 	uri->pathHead = segment;
+	return URI_TRUE;
+}
+
+
+
+/* To be called after dot segments have been removed from the path of a URI
+ * that owns its path text (i.e. from syntax normalization).  Makes sure that
+ * what is left is not read back as something else:
+ * - a first segment with a colon in a relative-path reference ("a/../b:c")
+ *   would become a scheme,
+ * - a host-less path starting with "//" ("/a/..//b") would become an authority,
+ * - a relative path would become absolute ("a/..//b").
+ * A single "." segment in front prevents all of that. */
+UriBool URI_FUNC(FixPathAfterDotRemoval)(URI_TYPE(Uri) * uri,
+		UriBool relative, UriMemoryManager * memory) {
+	URI_TYPE(PathSegment) * segment;
+	URI_CHAR * dot;
+	UriBool needDot = URI_FALSE;
+
+	if (URI_FUNC(IsHostSet)(uri)) {
+		return URI_TRUE;
+	}
+
+	/* Rootless path reading "/...": that is an absolute path, unless it
+	 * started out as a relative path (which gets a "." in front, below) */
+	if (!relative
+			&& !uri->absolutePath
+			&& (uri->pathHead != NULL)
+			&& (uri->pathHead->next != NULL)
+			&& (uri->pathHead->text.first == uri->pathHead->text.afterLast)) {
+		segment = uri->pathHead;
+		uri->pathHead = segment->next;
+		memory->free(memory, segment);
+		uri->absolutePath = URI_TRUE;
+	}
+
+	/* A lone empty segment adds nothing to "/" or "": drop it, as the parser does */
+	if ((uri->pathHead != NULL)
+			&& (uri->pathHead->next == NULL)
+			&& (uri->pathHead->text.first == uri->pathHead->text.afterLast)) {
+		memory->free(memory, uri->pathHead);
+		uri->pathHead = NULL;
+		uri->pathTail = NULL;
+	}
+
+	if (uri->pathHead == NULL) {
+		/* NOTE: A relative path that cancels out completely ("a/..") is left
+		 *       empty, which is what existing users expect. */
+		return URI_TRUE;
+	}
+
+	if (uri->pathHead->text.first == uri->pathHead->text.afterLast) {
+		/* "//..." without host, or "/..." from a relative path */
+		needDot = URI_TRUE;
+	} else if (relative) {
+		const URI_CHAR * ch = uri->pathHead->text.first;
+		for (; ch < uri->pathHead->text.afterLast; ch++) {
+			if (*ch == _UT(':')) {
+				needDot = URI_TRUE;
+				break;
+			}
+		}
+	}
+
+	if (!needDot) {
+		return URI_TRUE;
+	}
+
+	/* Insert owned "." segment in front */
+	segment = memory->malloc(memory, 1 * sizeof(URI_TYPE(PathSegment)));
+	if (segment == NULL) {
+		return URI_FALSE; /* Raises malloc error */
+	}
+	dot = memory->malloc(memory, 1 * sizeof(URI_CHAR));
+	if (dot == NULL) {
+		memory->free(memory, segment);
+		return URI_FALSE; /* Raises malloc error */
+	}
+	dot[0] = _UT('.');
+	segment->text.first = dot;
+	segment->text.afterLast = dot + 1;
+	segment->reserved = NULL;
+	segment->next = uri->pathHead;
+	uri->pathHead = segment;
+	if (uri->pathTail == NULL) {
+		uri->pathTail = segment;
+	}
 	return URI_TRUE;
 }
 
